@@ -47,6 +47,11 @@ def gen_cases(tier, seed):
             shells[0]["c"] = [float(v) for v in np.array(shells[0]["c"]) + off]
             shells[1] = dict(shells[0], c=[float(v) for v in np.array(shells[0]["c"]) + u * dlt], t=shells[1]["t"])
             classes.append("near-dependent-displaced")
+        if eri and i % 6 == 3:
+            shells[0] = dict(shells[0], l=0, e=[7.5, 1.1, 0.25], k=[[0.4, 0.0], [0.7, -0.3], [0.0, 1.0]])
+            if nsh >= 2 and shells[1]["l"] == 0:
+                shells[1] = dict(shells[1], l=1)
+            classes.append("coef:zeros-s")
         nq = int(rng.integers(1, 5))
         pts, _ = bases.rand_points(rng, shells, nq)
         if i % 2 == 0:  # charges in the Boys window of the highest-l shell: (a+b)|P-C|^2 = 15 .. 45
